@@ -67,13 +67,17 @@ __CPROVER_assigns(aio->a_nio, __CPROVER_object_upto(&aio->a_iov[0], sizeof(aio->
 __CPROVER_ensures(aio->a_nio <= VIOV_MAX && aio->a_nio <= OLD(aio->a_nio))
 #if !defined(ADV_PART) || ADV_PART == 1
 /* left-over count: what the vector could not supply */
+#ifdef ADV_MUT
+__CPROVER_ensures(RV == (n <= ADV_T0 ? (size_t) 0 : n - ADV_T0 + 1))
+#else
 __CPROVER_ensures(RV == (n <= ADV_T0 ? (size_t) 0 : n - ADV_T0))
+#endif
 #endif
 #if !defined(ADV_PART) || ADV_PART == 2
 /* ENTRY VIEW: entries used up completely are dropped from the front, in order ... */
 __CPROVER_ensures(aio->a_nio == OLD(aio->a_nio) - ADV_D)
 #endif
-#if !defined(ADV_PART) || ADV_PART == 3
+#if defined(ADV_WITH_FIRST) || (defined(ADV_PART) && ADV_PART == 3)
 /* ... the first survivor loses its consumed front part: strictly less than its length, so the
  * buffer position stays inside the buffer ... */
 __CPROVER_ensures((aio->a_nio > 0 && g_n == ADV_D && g_n < VIOV_MAX) ==> (n - IOV_PJ(IOV_OL, IOV_ON, aio, g_n) < OLD(aio->a_iov[g_n & 7u].iov_len) || n == IOV_PJ(IOV_OL, IOV_ON, aio, g_n)))
